@@ -272,7 +272,7 @@ pub fn run(run: &Run) {
             }
         }
     });
-    run.prop("random_strings", run.pick(1_000_000, 30_000_000), || (gens::gstring(), gens::gstring()), |(s, t), l| check_string(s, t, l));
+    run.prop("random_strings", run.pick(500_000, 30_000_000), || (gens::gstring(), gens::gstring()), |(s, t), l| check_string(s, t, l));
     run.par("numeric_boundaries", true, |tid, _n, l| {
         if tid != 0 {
             return;
